@@ -126,7 +126,14 @@ pub fn run_grad_px(l: &[i128]) -> Vec<i128> {
     }
     let kind = l[0];
     let (x0, y0, x1, y1, rad) = (f(l[1]), f(l[2]), f(l[3]), f(l[4]), f(l[5]));
-    let (spread, hq, blend, bg) = (l[6], l[7] != 0, l[8], l[9]);
+    let (spread, hq, blend, bg) = (l[6], l[7] != 0, l[8], l[9] % 3);
+    // the transform of the draw call (canvas): identity, a quarter turn, a non-uniform scale, a skew
+    let canvas = match l[9] / 3 {
+        0 => Transform::identity(),
+        1 => Transform::from_row(0.0, 1.0, -1.0, 0.0, l[10] as f32, 0.0),
+        2 => Transform::from_row(1.5, 0.0, 0.0, 0.75, 3.0, -2.0),
+        _ => Transform::from_row(1.0, 0.25, -0.5, 1.0, 4.0, 1.0),
+    };
     let (w, h) = (l[10] as u32, l[11] as u32);
     let ts = Transform::from_row(f(l[12]), f(l[14]), f(l[13]), f(l[15]), f(l[16]), f(l[17]));
     let (stops, _) = match decode_stops(&l[18..]) {
@@ -161,13 +168,18 @@ pub fn run_grad_px(l: &[i128]) -> Vec<i128> {
     paint.anti_alias = false;
     paint.force_hq_pipeline = hq;
     paint.blend_mode = if blend == 0 { BlendMode::Source } else { BlendMode::SourceOver };
-    pm.fill_rect(Rect::from_xywh(0.0, 0.0, w as f32, h as f32).unwrap(), &paint, Transform::identity(), None);
+    if canvas.is_identity() {
+        pm.fill_rect(Rect::from_xywh(0.0, 0.0, w as f32, h as f32).unwrap(), &paint, Transform::identity(), None);
+    } else {
+        pm.fill_rect(Rect::from_ltrb(-500.0, -500.0, 500.0, 500.0).unwrap(), &paint, canvas, None);
+    }
     if solid {
         return vec![0, 0, 0, 0, 0, 0, 0, 0, 0, 1];
     }
     // reference
     let s = sanitise(&stops, &raw);
-    let inv = match ts.invert() {
+    // device = canvas(ts(gradient space))
+    let inv = match canvas.pre_concat(ts).invert() {
         Some(v) => v,
         None => return vec![0, 0, 0, 0, 0, 0, 0, 0, 0, 2],
     };
@@ -247,7 +259,7 @@ pub fn run_grad_px(l: &[i128]) -> Vec<i128> {
             if undefined > 0 || ts_.iter().any(|t| !t.is_finite()) {
                 continue; // on the boundary of the defined region
             }
-            if std::env::var("VERIF_GRAD_DEBUG").is_ok() && y == h / 2 {
+            if std::env::var("VERIF_GRAD_DEBUG").map(|v| v.parse::<u32>().unwrap_or(h / 2) == y).unwrap_or(false) {
                 eprintln!("x {} t {:.4} got {:?}", x, ts_[0], g);
             }
             let (tmin, tmax) = ts_.iter().fold((f64::MAX, f64::MIN), |(a, b2), t| (a.min(*t), b2.max(*t)));
@@ -285,6 +297,21 @@ pub fn run_grad_px(l: &[i128]) -> Vec<i128> {
                 let eps = (hi_t - lo_t) / steps as f64 + 1e-9;
                 if st.p >= umin - eps && st.p <= umax + eps {
                     add(st.c);
+                }
+            }
+            // a premultiplied colour is quadratic between two stops: sample the inside of every stop interval that the
+            // tiled range reaches (a short, steep interval may fall between two of the uniform samples above)
+            for k in 0..s.len().saturating_sub(1) {
+                let (p0, p1) = (s[k].p, s[k + 1].p);
+                let eps = (hi_t - lo_t) / steps as f64 + 1e-9;
+                let (a, b) = (p0.max(umin - eps), p1.min(umax + eps));
+                if p1 > p0 && b >= a {
+                    for i in 0..=8 {
+                        let tt = a + (b - a) * i as f64 / 8.0;
+                        for side in [-1, 1] {
+                            add(color_at(&s, tt, side));
+                        }
+                    }
                 }
             }
             // hard stops / seams inside the interval: every stop position (and 0/1 under tiling) contributes its two limits
